@@ -4,7 +4,7 @@ c11_tie = importlib.util.module_from_spec(_spec); _spec.loader.exec_module(c11_t
 T = "GeomV.C11."
 CFG = {
     "id": "C11",
-    "lean_modules": ["GeomV.C11.Proofs", "GeomV.C11.ProofsArith", "GeomV.C11.ProofsFill", "GeomV.C11.ProofsHeap", "GeomV.C11.ProofsParent", "GeomV.C11.ProofsParentIns", "GeomV.C11.ProofsParentDel", "GeomV.C11.ProofsHeapDel", "GeomV.C11.ProofsHeapIns"] + c11_tie.C11_TIES,
+    "lean_modules": ["GeomV.C11.Proofs", "GeomV.C11.ProofsArith", "GeomV.C11.ProofsFill", "GeomV.C11.ProofsHeap", "GeomV.C11.ProofsParent", "GeomV.C11.ProofsParentIns", "GeomV.C11.ProofsParentDel", "GeomV.C11.ProofsHeapDel", "GeomV.C11.ProofsHeapIns", "GeomV.C11.ProofsHeapBase", "GeomV.C11.ProofsHeapSplit", "GeomV.C11.ProofsHeapRootSplit"] + c11_tie.C11_TIES,
     "exe": "geomv_c11",
     "go_cmd": "c11",
     "stages": ["go:gen", "go:impl", "lean:judge"],
@@ -35,6 +35,12 @@ CFG = {
         # the functional model; the fused recursions delIn / insertAt of the functional model are linked to the separate findLeafF / chooseNodeF
         "Heap.C11_delIn_findLeaf", "Heap.C11_heap_delete_phase1_refines", "Heap.C11_insertAt_chooseNode", "Heap.C11_heap_chooseNode_refines",
         "Heap.C11_heap_collapse_refines",
+        # … and the whole Delete / Insert (no overflow) of the pointer-level model on represented trees whose root is a leaf (base case; `_partial`)
+        "Heap.C11_heap_delete_refines_partial", "Heap.C11_heap_insert_refines_partial",
+        # … the fault direction of the split refinement (split on the arena faults exactly where splitEntries faults)
+        "Heap.C11_heap_split_total",
+        # … and with it the first root split: Insert into a full leaf root (append, split, adjustTree at the root, new root, height++)
+        "Heap.C11_heap_insert_rootsplit_refines_partial",
         # T1: definitions regenerated from index/rtree/{geom,rtree}.go of the tree under test = the model's
         "C11_tie_size", "C11_tie_margin", "C11_tie_containsPoint", "C11_tie_containsRect", "C11_tie_intersect",
         "C11_tie_enlarge", "C11_tie_initBoundingBox", "C11_tie_boundingBox", "C11_tie_computeBoundingBox",
